@@ -277,6 +277,7 @@ let spec_session cfgs chunks obs =
     let auth_bad = ref false in
     let content_bad = ref false in
     let cur_from = ref [] in       (* sender of the last accepted MAIL FROM: what a From: field added on the submission port carries *)
+    let stored = ref 0 in      (* recipients accepted in the open transaction (for "second recipient of a bounce") *)
     let rec go = function
       | [] -> ()
       | c :: rest ->
@@ -286,27 +287,30 @@ let spec_session cfgs chunks obs =
           let r = next () in
           let rep = Reply (n_of_int r) in
           if starts_with u "HELO " || starts_with u "EHLO " then
-            ((if r = 250 then emit [Note NBoundary; Note NHelo; Note (NEsmtp (starts_with u "EHLO ")); rep]
+            (stored := 0;
+             (if r = 250 then emit [Note NBoundary; Note NHelo; Note (NEsmtp (starts_with u "EHLO ")); rep]
               else emit [Note NBoundary; rep]);      (* a refused greeting still drops the transaction (freedata() comes first) *)
              go rest)
           else if starts_with u "MAIL FROM:" then begin
             (if r / 100 = 2 then
                (match o_addr false (bytes_of_str (String.sub line 10 (String.length line - 10))) with
-                | AP_ok (a, _, _) -> cur_from := a; emit [Note (NMail a); rep]
-                | _ -> cur_from := bytes_of_str "?"; emit [Note (NMail (bytes_of_str "?")); rep])
+                | AP_ok (a, _, _) -> cur_from := a; stored := 0; emit [Note (NMail a); rep]
+                | _ -> cur_from := bytes_of_str "?"; stored := 0; emit [Note (NMail (bytes_of_str "?")); rep])
              else emit [rep]); go rest end
           else if starts_with u "RCPT TO:" then begin
             let arg = bytes_of_str (String.sub line 8 (String.length line - 8)) in
             (match o_addr true arg with
              | AP_ok (a, None, cls) ->
-                 if r / 100 = 2 && r <> 252 then emit [Note (NRcpt (a, cls)); rep]
-                 else if r = 550 then emit [Note NWithdraw; rep]       (* second recipient of a bounce *)
+                 if r / 100 = 2 && r <> 252 then (incr stored; emit [Note (NRcpt (a, cls)); rep])
+                 (* 550 for an address that parses and exists: the second recipient of a bounce - only with an open bounce transaction that
+                    already has one; any other 550 (e.g. the closing "too many bad commands") is just a reply *)
+                 else if r = 550 && !cur_from = [] && !stored >= 1 then emit [Note NWithdraw; rep]
                  else emit [rep]
              | _ -> if r / 100 = 2 then emit [Note (NRcpt (bytes_of_str "?", RNotLocal)); rep] else emit [rep]);
             go rest end
           else if u = "DATA" then begin
             if r = 354 then begin
-              emit [Note (NData (nat_of_int !k)); rep]; incr k;
+              emit [Note (NData (nat_of_int !k)); rep]; incr k; stored := 0;
               (match rest with
                | p :: rest' ->
                    if not (payload_ok p) then raise Not_simple;
@@ -332,7 +336,7 @@ let spec_session cfgs chunks obs =
                 | Auth_ok nm when o.o_authperm -> emit [Note (NAuth nm); rep]
                 | _ -> auth_bad := true; emit [Note (NAuth (bytes_of_str "?")); rep])   (* 235 without a backend that said yes *)
              else emit [rep]); go rest end
-          else if u = "RSET" then (emit (if r = 250 then [Note NBoundary; rep] else [rep]); go rest)
+          else if u = "RSET" then (stored := 0; emit (if r = 250 then [Note NBoundary; rep] else [rep]); go rest)
           else if u = "QUIT" then (emit [rep; Closed]; if rest <> [] then raise Not_simple)
           else if u = "NOOP" || starts_with u "VRFY" then (emit [rep]; go rest)
           else raise Not_simple in
